@@ -54,11 +54,15 @@ type Checked struct {
 	lastInv      map[int]*invSummary
 	rejKeys      []Key
 	HarmlessFail map[int]bool // Invokes that failed at their own shallow dependency check (nothing was resolved)
-	R3           bool         // a decorator-introduced key (decorated, never provided) was live at some Invoke
-	groupSeen    map[groupReq]int
-	typeKeys     map[int]map[Key]bool
-	touchAfter   int
-	faultBefore  bool // an injected fault fired in an earlier operation of this history
+	// OrderDep: functions one of whose arguments may legitimately depend on the
+	// order of resolution: a decorator of that key can be on the stack while the
+	// function is built (dig then skips it, DESIGN §9 R2).
+	OrderDep    map[int]bool
+	R3          bool // a decorator-introduced key (decorated, never provided) was live at some Invoke
+	groupSeen   map[groupReq]int
+	typeKeys    map[int]map[Key]bool
+	touchAfter  int
+	faultBefore bool // an injected fault fired in an earlier operation of this history
 }
 
 func (c *Checked) probe(name string) { c.Probes[name]++ }
@@ -216,6 +220,13 @@ func (c *Checked) Step(i int) {
 // afterFault adds C07 to the properties a violation counts against when an
 // injected failure happened earlier in the history: whatever goes wrong now on
 // a fault-free path is then (also) something a failed execution left behind.
+func (c *Checked) orderDep(fn int) {
+	if c.OrderDep == nil {
+		c.OrderDep = map[int]bool{}
+	}
+	c.OrderDep[fn] = true
+}
+
 func (c *Checked) afterFault(props ...string) []string {
 	if c.faultBefore {
 		return append(props, "C07")
@@ -874,6 +885,7 @@ func (c *Checked) checkProvenance(i int, op Op, res *OpResult, evs []Event) {
 			src := srcs[0]
 			if len(srcs) > 1 {
 				c.probe("arg_decorator_maybe_on_stack")
+				c.orderDep(e.Fn)
 			}
 			if src.Dec != nil {
 				c.probe("arg_from_decorator")
@@ -994,6 +1006,11 @@ func (c *Checked) checkGroupArg(i int, who string, cons Consumer, p LeafParam, a
 	m := c.M
 	got := canonMembers(p.Key, a.Serials)
 	ds := m.DecsOnPath(cons.Scope, p.Key, cons.Self)
+	for _, d := range ds {
+		if m.MayBeOnStack(d, cons.Fn) {
+			c.orderDep(f.ID)
+		}
+	}
 	if len(ds) > 0 {
 		c.probe("group_decorated")
 		var first []int64
